@@ -7,7 +7,7 @@ import impl, gens, l0, peg, lexer
 THMS = ["C09_layout_invariance", "C09_layout_invariance_total", "C09_all_queries_commute", "C09_case_invariance", "C09_case_invariance_total", "C09_fuel_independent", "C09_fuel_monotone", "C09_same_derivation", "C09_same_derivation_any_fuel", "C09_plain_sequence_refuted"]
 HEADER = ("From Coq Require Import List NArith Bool.\nFrom MoSql Require Import Model.Peg Model.PegRun Model.PegSim Generated.Grammar.\nImport ListNotations.\nLocal Open Scope N_scope.\n")
 FILL_WS = ["  ", "\n", "\t", " \n ", "\r\n", "\n\n\t"]
-FILL_CM = [" /* c */ ", " -- c\n", " # c\n", "/**/", "--c\n", "#c\n", " /*c*/", " --\n", "\t/* a\nb */\n"]
+FILL_CM = [" /* c */ ", " -- c\n", " # c\n", "/**/", "--c\n", "#c\n", " /*c*/", " --\n", "\t/* a\nb */\n", "/***/", " /* c **/ ", "/** a * b / c ***/", " /*/ c */ "]
 SITES_FILE = "/verif/corpus/c09_plain_sites.json"
 TABLES = {"common_parser": "common", "mysql_parser": "mysql", "sqlserver_parser": "sqlserver", "bigquery_parser": "bigquery"}
 
